@@ -6,6 +6,7 @@ package main
 
 import (
 	"fmt"
+	"go/types"
 	"strings"
 
 	"golang.org/x/tools/go/ssa"
@@ -26,47 +27,205 @@ func siteOf(in ssa.Instruction) Site {
 	return Site{b, 0}
 }
 
-// PathQ is a reachability query.
+// PathQ is a reachability query over the CFG of Fn, descending into the
+// bodies of "new" (non-frozen) helper functions as if they were inlined.
 type PathQ struct {
 	c       *Ctx
 	Fn      *ssa.Function
 	CutIn   func(ssa.Instruction) bool              // passing this instruction ends the path
-	CutEdge func(b *ssa.BasicBlock, succ int) bool // deleted edges
-	Facts   *Facts // optional path-sensitivity on repeated branch conditions
-	NoBack  bool   // do not follow back edges (target dominates source)
+	CutEdge func(b *ssa.BasicBlock, succ int) bool // deleted edges (static literal)
+	CutLit  LitMatch                               // deleted edges: those whose (path-resolved) literal matches
+	Facts   *Facts                                 // optional path-sensitivity on repeated branch conditions
+	NoBack  bool                                   // do not follow back edges (target dominates source)
 }
 
 type pstate struct {
-	b    *ssa.BasicBlock
-	fact uint64
+	b     *ssa.BasicBlock
+	fact  uint64
+	stack string
+	memo  string
 }
 
 const factUnknown = uint64(0)
 
+type frameNode struct {
+	call ssa.CallInstruction
+	ret  Site
+	up   *frameNode
+	id   string
+}
+
+// memoNode records, along one path, which value a boolean phi or the result of
+// a descended helper call took.
+type memoNode struct {
+	key  ssa.Value
+	idx  int // result index for calls
+	val  ssa.Value
+	up   *memoNode
+	sign string
+}
+
+func (m *memoNode) lookup(k ssa.Value, idx int) (ssa.Value, bool) {
+	for n := m; n != nil; n = n.up {
+		if n.key == k && n.idx == idx {
+			return n.val, true
+		}
+	}
+	return nil, false
+}
+
+func (m *memoNode) sig() string {
+	if m == nil {
+		return ""
+	}
+	return m.sign
+}
+
+func pushMemo(m *memoNode, k ssa.Value, idx int, v ssa.Value) *memoNode {
+	// replace an older decision for the same key (keeps the chain short and the signature canonical per key)
+	var keep []*memoNode
+	for n := m; n != nil; n = n.up {
+		if !(n.key == k && n.idx == idx) {
+			keep = append(keep, n)
+		}
+	}
+	var out *memoNode
+	for i := len(keep) - 1; i >= 0; i-- {
+		n := keep[i]
+		out = &memoNode{key: n.key, idx: n.idx, val: n.val, up: out}
+		out.sign = out.upSig() + memoEntrySig(n.key, n.idx, n.val)
+	}
+	nn := &memoNode{key: k, idx: idx, val: v, up: out}
+	nn.sign = nn.upSig() + memoEntrySig(k, idx, v)
+	return nn
+}
+
+func (m *memoNode) upSig() string {
+	if m.up == nil {
+		return ""
+	}
+	return m.up.sign
+}
+
+func memoEntrySig(k ssa.Value, idx int, v ssa.Value) string {
+	return fmt.Sprintf("%p.%d=%p;", k, idx, v)
+}
+
+// resolveBool follows memoised phi/call decisions; returns the resolved value and accumulated negation.
+func (q *PathQ) resolveBool(v ssa.Value, memo *memoNode) (ssa.Value, bool) {
+	neg := false
+	for i := 0; i < 12; i++ {
+		v = q.c.resolve(v)
+		switch x := v.(type) {
+		case *ssa.UnOp:
+			if x.Op.String() == "!" {
+				neg = !neg
+				v = x.X
+				continue
+			}
+		case *ssa.Phi:
+			if w, ok := memo.lookup(x, 0); ok {
+				v = w
+				continue
+			}
+		case *ssa.Call:
+			if w, ok := memo.lookup(x, 0); ok {
+				v = w
+				continue
+			}
+		case *ssa.Extract:
+			if call, isCall := x.Tuple.(*ssa.Call); isCall {
+				if w, ok := memo.lookup(call, x.Index); ok {
+					v = w
+					continue
+				}
+			}
+		}
+		break
+	}
+	return v, neg
+}
+
+// dynLit: the literal witnessed by taking successor succ of b on this path.
+// decided: the branch outcome is fixed by the path (constant); feasible tells whether succ is the taken one.
+func (q *PathQ) dynLit(b *ssa.BasicBlock, succ int, memo *memoNode) (lit Lit, hasLit bool, decided bool, feasible bool) {
+	iff, ok := b.Instrs[len(b.Instrs)-1].(*ssa.If)
+	if !ok {
+		return Lit{}, false, false, true
+	}
+	v, neg := q.resolveBool(iff.Cond, memo)
+	if k, isC := v.(*ssa.Const); isC && k.Value != nil {
+		if bt, ok := k.Type().Underlying().(*types.Basic); ok && bt.Info()&types.IsBoolean != 0 {
+			val := constantBool(k) != neg
+			return Lit{}, false, true, (succ == 0) == val
+		}
+	}
+	l := q.c.cond(v)
+	if neg {
+		l = l.Neg()
+	}
+	if succ == 1 {
+		l = l.Neg()
+	}
+	return l, true, false, true
+}
+
 // Reach searches from site `from` (exclusive of instructions before from.I)
 // for an instruction satisfying target. Returns the block path if found.
 func (q *PathQ) Reach(from Site, startFact uint64, target func(ssa.Instruction) bool) ([]string, bool) {
+	c := q.c
 	type item struct {
-		b    *ssa.BasicBlock
-		i    int
-		fact uint64
-		prev *item
+		b     *ssa.BasicBlock
+		i     int
+		fact  uint64
+		stack *frameNode
+		memo  *memoNode
+		prev  *item
+	}
+	// initial stack when starting inside a new helper: its unique call chain up to q.Fn
+	var stack0 *frameNode
+	if fn := from.B.Parent(); fn != q.Fn {
+		root, chain := c.callChain(fn)
+		if root == q.Fn || q.Fn == nil {
+			for _, site := range chain {
+				st := siteOf(site)
+				stack0 = &frameNode{call: site, ret: Site{st.B, st.I + 1}, up: stack0}
+				stack0.id = fmt.Sprintf("%s/%p", idOf(stack0.up), site)
+			}
+		}
 	}
 	seen := map[pstate]bool{}
 	var work []*item
-	work = append(work, &item{from.B, from.I, startFact, nil})
+	work = append(work, &item{from.B, from.I, startFact, stack0, nil, nil})
+	savedFrames := c.frames
+	defer func() { c.frames = savedFrames }()
+	setFrames := func(s *frameNode) {
+		c.frames = savedFrames
+		var chain []ssa.CallInstruction
+		for n := s; n != nil; n = n.up {
+			chain = append([]ssa.CallInstruction{n.call}, chain...)
+		}
+		c.frames = append(append([]ssa.CallInstruction{}, savedFrames...), chain...)
+	}
+	steps := 0
 	for len(work) > 0 {
 		it := work[len(work)-1]
 		work = work[:len(work)-1]
+		steps++
+		if steps > 200000 {
+			break
+		}
 		if it.i == 0 {
-			st := pstate{it.b, it.fact}
+			st := pstate{it.b, it.fact, idOf(it.stack), it.memo.sig()}
 			if seen[st] {
 				continue
 			}
 			seen[st] = true
 		}
 		fact := it.fact
-		cut := false
+		memo := it.memo
+		stop := false
+		descended := false
 		for i := it.i; i < len(it.b.Instrs); i++ {
 			in := it.b.Instrs[i]
 			if target(in) {
@@ -77,19 +236,59 @@ func (q *PathQ) Reach(from Site, startFact uint64, target func(ssa.Instruction) 
 				return path, true
 			}
 			if q.CutIn != nil && q.CutIn(in) {
-				cut = true
+				stop = true
 				break
 			}
 			if q.Facts != nil {
 				fact = q.Facts.step(in, fact)
 			}
+			// descend into a new helper
+			if ci, ok := in.(ssa.CallInstruction); ok {
+				if _, isDefer := in.(*ssa.Defer); !isDefer {
+					cal := ci.Common().StaticCallee()
+					if cal != nil && c.isNew(cal) && depthOf(it.stack) < 4 && !onStack(it.stack, cal) {
+						fr := &frameNode{call: ci, ret: Site{it.b, i + 1}, up: it.stack}
+						fr.id = fmt.Sprintf("%s/%p", idOf(it.stack), ci)
+						work = append(work, &item{cal.Blocks[0], 0, fact, fr, memo, it})
+						descended = true
+						break
+					}
+				}
+			}
+			if ret, ok := in.(*ssa.Return); ok && it.stack != nil {
+				// return into the caller, remembering the returned values
+				fr := it.stack
+				nm := memo
+				if cv := fr.call.Value(); cv != nil {
+					for k, rv := range ret.Results {
+						nm = pushMemo(nm, cv, k, rv)
+					}
+				}
+				work = append(work, &item{fr.ret.B, fr.ret.I, fact, fr.up, nm, it})
+				descended = true
+				break
+			}
 		}
-		if cut {
+		if stop || descended {
 			continue
 		}
+		setFrames(it.stack)
 		for si, s := range it.b.Succs {
 			if q.CutEdge != nil && q.CutEdge(it.b, si) {
 				continue
+			}
+			lit, hasLit, decided, feasible := q.dynLit(it.b, si, memo)
+			if decided && !feasible {
+				continue
+			}
+			if q.CutLit != nil {
+				if hasLit && q.CutLit(lit) {
+					continue
+				}
+				// the literal as written (before resolving named booleans) also counts as witnessed
+				if sl, ok := c.edgeLit(it.b, si); ok && q.CutLit(sl) {
+					continue
+				}
 			}
 			if q.NoBack && s.Dominates(it.b) {
 				continue
@@ -102,10 +301,52 @@ func (q *PathQ) Reach(from Site, startFact uint64, target func(ssa.Instruction) 
 					continue
 				}
 			}
-			work = append(work, &item{s, 0, nf, it})
+			// boolean phis at the successor take the value of this edge
+			nm := memo
+			pi := -1
+			for k, p := range s.Preds {
+				if p == it.b {
+					pi = k
+				}
+			}
+			if pi >= 0 {
+				for _, in := range s.Instrs {
+					ph, ok := in.(*ssa.Phi)
+					if !ok {
+						break
+					}
+					if bt, ok := ph.Type().Underlying().(*types.Basic); ok && bt.Info()&types.IsBoolean != 0 {
+						nm = pushMemo(nm, ph, 0, ph.Edges[pi])
+					}
+				}
+			}
+			work = append(work, &item{s, 0, nf, it.stack, nm, it})
 		}
+		c.frames = savedFrames
 	}
 	return nil, false
+}
+
+func idOf(s *frameNode) string {
+	if s == nil {
+		return ""
+	}
+	return s.id
+}
+func depthOf(s *frameNode) int {
+	n := 0
+	for ; s != nil; s = s.up {
+		n++
+	}
+	return n
+}
+func onStack(s *frameNode, fn *ssa.Function) bool {
+	for ; s != nil; s = s.up {
+		if s.call.Common().StaticCallee() == fn {
+			return true
+		}
+	}
+	return false
 }
 
 func (q *PathQ) blockDesc(b *ssa.BasicBlock) string {
@@ -167,7 +408,7 @@ func (c *Ctx) cutEdges(m LitMatch) func(b *ssa.BasicBlock, succ int) bool {
 // Requires: every path from entry to target passes an edge witnessing m
 // (REQ(T; m)). Returns offending path when violated.
 func (c *Ctx) Requires(fn *ssa.Function, target func(ssa.Instruction) bool, m LitMatch, tr *Facts) ([]string, bool) {
-	q := &PathQ{c: c, Fn: fn, CutEdge: c.cutEdges(m), Facts: tr}
+	q := &PathQ{c: c, Fn: fn, CutLit: m, Facts: tr}
 	path, found := q.Reach(entrySite(fn), factUnknown, target)
 	return path, !found
 }
@@ -177,7 +418,7 @@ func (c *Ctx) Requires(fn *ssa.Function, target func(ssa.Instruction) bool, m Li
 func (c *Ctx) MustPass(fn *ssa.Function, target, via func(ssa.Instruction) bool, viaEdge LitMatch, tr *Facts) ([]string, bool) {
 	q := &PathQ{c: c, Fn: fn, CutIn: via, Facts: tr}
 	if viaEdge != nil {
-		q.CutEdge = c.cutEdges(viaEdge)
+		q.CutLit = viaEdge
 	}
 	path, found := q.Reach(entrySite(fn), factUnknown, target)
 	return path, !found
@@ -284,6 +525,14 @@ type CtlDep struct {
 // controlDeps returns the transitive closure of the (block, edge) pairs the
 // block t is control dependent on.
 func (c *Ctx) controlDeps(fn *ssa.Function, t *ssa.BasicBlock) []CtlDep {
+	if t.Parent() != fn {
+		// the block lives in a helper: its own dependences plus those of the (unique) call site
+		out := c.controlDeps(t.Parent(), t)
+		if site := c.inlineSite(t.Parent()); site != nil && site.Block() != nil {
+			out = append(out, c.controlDeps(fn, site.Block())...)
+		}
+		return out
+	}
 	ipd := postDom(fn)
 	pdoms := func(x, b *ssa.BasicBlock) bool { // x post-dominates b (reflexive)
 		for cur := b; cur != nil; cur = ipd[cur] {
